@@ -7,7 +7,7 @@ Oracle: E_n(M) of the reference model for every n in 0..N, N >= (largest special
 import time
 
 from .. import gen
-from ..common import program_corpus, analyse_program_goals
+from ..common import program_corpus, analyse_program_goals, alias_programs
 
 ID = "C01"
 LEVEL = "model_checking"
@@ -37,6 +37,9 @@ def cases(tier, seed):
     out = []
     for text, goals in program_corpus("c01", tier):
         out.append({"input": {"text": text, "goals": goals}, "N": 4 if tier == "quick" else 6, "seed": seed})
+    al = alias_programs(tier)
+    for text in (al[::4] if tier == "quick" else al):
+        out.append({"input": {"text": text, "goals": ["x", "y", "x*y"]}, "N": 4, "seed": seed})
     return out
 
 
